@@ -21,7 +21,8 @@ inductive Op where
   | write (del add : List Tuple)
   | chk (higher : Bool) (aux : Aux) (ctxT : List Tuple) (rq : Req)
   | bat (higher : Bool) (items : List (Aux × Req))
-  | lo (higher : Bool) (aux : Aux) (rq : Req)
+  /-- `kind`: lo = unary, slo = streamed, warm = unary repeated until the iterator cache answers -/
+  | lo (kind : String) (higher : Bool) (aux : Aux) (rq : Req)
   | lu (higher : Bool) (aux : Aux) (rq : Req)
 
 def parseItems : Nat → List String → Option (List (Aux × Req) × List String)
@@ -55,12 +56,12 @@ def parseOps : Nat → List String → Option (List Op)
       let (items, ts) ← parseItems n ts
       let rest ← parseOps k ts
       pure (.bat (h = 1) items :: rest)
-    | "lo" => do
+    | "lo" | "slo" | "warm" => do
       let (h, ts) ← FgaCodec.nat ts
       let (aux, ts) ← FgaCodec.aux ts
       let (rq, ts) ← FgaCodec.req ts
       let rest ← parseOps k ts
-      pure (.lo (h = 1) aux rq :: rest)
+      pure (.lo kind (h = 1) aux rq :: rest)
     | "lu" => do
       let (h, ts) ← FgaCodec.nat ts
       let (aux, ts) ← FgaCodec.aux ts
@@ -108,7 +109,7 @@ def oracleAnswer (c : HCase) (stored : List Tuple) : Op → String
   | .bat _ items =>
       ";".intercalate (items.map (fun (aux, rq) =>
         oracleClass { model := c.model, aux := aux, stored := stored, ctxTuples := [], req := rq }))
-  | .lo _ aux rq =>
+  | .lo _ _ aux rq =>
       let typ := typeOf rq.obj
       let cands := dedupStr ((stored.filter (fun t => typeOf t.obj = typ)).map (·.obj))
       let cls := cands.map (fun o =>
@@ -119,7 +120,7 @@ def oracleAnswer (c : HCase) (stored : List Tuple) : Op → String
   | .lu _ _ _ => ""
 
 def isHigher : Op → Bool
-  | .chk h _ _ _ => h | .bat h _ => h | .lo h _ _ => h | .lu h _ _ => h | .write _ _ => false
+  | .chk h _ _ _ => h | .bat h _ => h | .lo _ h _ _ => h | .lu h _ _ => h | .write _ _ => false
 
 def isRead : Op → Bool
   | .write _ _ => false
@@ -127,11 +128,12 @@ def isRead : Op → Bool
 
 def opName : Op → String
   | .write _ _ => "write" | .chk _ _ _ rq => s!"Check({rq.obj}#{rq.rel}@{rq.user})" | .bat _ _ => "BatchCheck"
-  | .lo _ _ rq => s!"ListObjects({typeOf rq.obj},{rq.rel},{rq.user})" | .lu _ _ rq => s!"ListUsers({rq.obj}#{rq.rel},{typeOf rq.user})"
+  | .lo kind _ _ rq => s!"{if kind = "slo" then "StreamedListObjects" else "ListObjects"}({typeOf rq.obj},{rq.rel},{rq.user})" | .lu _ _ rq => s!"ListUsers({rq.obj}#{rq.rel},{typeOf rq.user})"
 
 def flagNames (mask : Nat) : String :=
   let names := [(1, "query-cache"), (2, "check-iterator-cache"), (4, "listobjects-iterator-cache"), (8, "shared-iterators"),
-                (16, "cache-controller"), (32, "weighted-graph-check"), (64, "listobjects-pipeline")]
+                (16, "cache-controller"), (32, "weighted-graph-check"), (64, "listobjects-pipeline"),
+                (128, "listobjects-optimizations")]
   "+".intercalate ((names.filter (fun p => (mask / p.1) % 2 = 1)).map (·.2))
 
 /-- oracle classes are comparable with impl classes only when decisive -/
@@ -157,12 +159,14 @@ def step (c impl : String) : String :=
   | none => "SKIP unparsable-case"
   | some hc =>
     if impl = "invalid-model" || impl.startsWith "setup-failed" then "SKIP " ++ impl else
+    -- an engine that never returned (known: the streaming pipeline, finding L4 of C05 / C21) says nothing about caches
+    if (impl.splitOn "Ehang").length > 1 then "SKIP engine-did-not-return" else
     let groups := (fields impl).filterMap (fun f =>
       match f.splitOn "=" with
       | [name, body] => some (name, body.splitOn ",")
       | _ => none)
     let refOf (mask : Nat) : List String :=
-      match groups.find? (·.1 = s!"ref{(mask / 32) % 4 * 32}") with
+      match groups.find? (·.1 = s!"ref{(mask / 32) % 8 * 32}") with
       | some (_, r) => r
       | none => []
     let baseRefs := (groups.filter (fun g => g.1.startsWith "ref")).map (·.2)
